@@ -46,3 +46,11 @@ pub mod level_axioms {
         ax_filter_filter_cmp, ax_filter_filter_obeys, ax_filter_eq, ax_filter_eq_obeys,
     }
 }
+
+/// (not used by the code as it is) `LevelFilter::to_level` / `Level::to_level_filter`: the level of the same name, none for Off
+pub assume_specification[ log::LevelFilter::to_level ](f: &log::LevelFilter) -> (r: Option<log::Level>)
+    ensures r == (match *f { log::LevelFilter::Off => None::<log::Level>, log::LevelFilter::Error => Some(log::Level::Error), log::LevelFilter::Warn => Some(log::Level::Warn),
+        log::LevelFilter::Info => Some(log::Level::Info), log::LevelFilter::Debug => Some(log::Level::Debug), log::LevelFilter::Trace => Some(log::Level::Trace) });
+pub assume_specification[ log::Level::to_level_filter ](l: &log::Level) -> (r: log::LevelFilter)
+    ensures r == (match *l { log::Level::Error => log::LevelFilter::Error, log::Level::Warn => log::LevelFilter::Warn, log::Level::Info => log::LevelFilter::Info,
+        log::Level::Debug => log::LevelFilter::Debug, log::Level::Trace => log::LevelFilter::Trace });
